@@ -4230,7 +4230,14 @@ func (r *Resolver) resolveWithCachedNameservers(ctx context.Context, rs *resolve
 		return nil, errMaxDepth
 	}
 
-	rs.level++
+	// The level is the label count of the zone now being descended into, as
+	// on the uncached path of processDelegation. A referral can jump more
+	// than one label (uk. servers referring straight to example.co.uk.), and
+	// "one deeper than before" then left the level too shallow: checkGlueRR
+	// derives the glue bailiwick from it, so the next referral's glue was
+	// checked against co.uk. instead of example.co.uk. and an address for
+	// a sibling zone's name server was accepted into the shared glue cache.
+	rs.level = dns.CountLabel(q.Name)
 	rs.servers = cached.Servers
 	rs.parentDS = cached.DSSet
 	rs.isRoot = false
